@@ -210,7 +210,7 @@ Definition den_align (s : source) : den :=
     end
   end.
 
-Definition denote (h : how) (cur : option pval) (s : source) : den :=
+Definition denote (h : how) (cur : option pval) (dx dy : N) (s : source) : den :=
   match h with
   | HStr => den_str s
   | HNum ty => den_num ty s
@@ -220,11 +220,11 @@ Definition denote (h : how) (cur : option pval) (s : source) : den :=
   | HPt rmax => den_pt rmax s
   | HPtX => match den_num NF32 s, cur with
             | DVal (PF32 x), Some (PPt _ y) => DVal (PPt x y)
-            | DDefault, Some (PPt _ y) => DVal (PPt 1056964608%N y)
+            | DDefault, Some (PPt _ y) => DVal (PPt dx y)
             | DVal _, _ => DRefuse | d, _ => d end
   | HPtY => match den_num NF32 s, cur with
             | DVal (PF32 y), Some (PPt x _) => DVal (PPt x y)
-            | DDefault, Some (PPt x _) => DVal (PPt x 1056964608%N)
+            | DDefault, Some (PPt x _) => DVal (PPt x dy)
             | DVal _, _ => DRefuse | d, _ => d end
   | HIntv => den_intv s
   | HAlign => den_align s
@@ -252,21 +252,30 @@ Definition auto_select (k : kind) (s : source) : option (bytes * how) :=
   | _, _ => None
   end.
 
+(* a character stored in a property that is listed as a number shows as that number (graph grid) *)
+Definition coerce (shape v : pval) : pval :=
+  match shape, v with
+  | PInt _, PChr z => PInt z
+  | PChr _, PInt z => PChr z
+  | _, _ => v
+  end.
+
 Definition apply_named (k : kind) (o : aobj) (p : bytes) (h : how) (s : asrc) : bool * aobj :=
+  let '(dx, dy) := match ok_default k p with PPt x y => (x, y) | _ => (0%N, 0%N) end in
   match s with
   | AReset =>
     match h with
-    | HPtX => match aget o p with Some (PPt _ y) => (true, aput o p (PPt 1056964608%N y)) | _ => (true, o) end
-    | HPtY => match aget o p with Some (PPt x _) => (true, aput o p (PPt x 1056964608%N)) | _ => (true, o) end
+    | HPtX => match aget o p with Some (PPt _ y) => (true, aput o p (PPt dx y)) | _ => (true, o) end
+    | HPtY => match aget o p with Some (PPt x _) => (true, aput o p (PPt x dy)) | _ => (true, o) end
     | _ => (true, aput o p (ok_default k p))
     end
   | AOther => (false, o)
   | ASrc src =>
-    match denote h (aget o p) src with
+    match denote h (aget o p) dx dy src with
     | DRefuse => (false, o)
     | DDefault => (true, aput o p (ok_default k p))
     | DKeep => (true, o)
-    | DVal v => (true, aput o p v)
+    | DVal v => (true, aput o p (coerce (ok_default k p) v))
     end
   end.
 
@@ -317,8 +326,22 @@ Definition sdump (k : kind) (o : aobj) : list sent :=
 Inductive stok := TK | TR | TG (e : sent) | TKn (n : Z).
 Definition sout := (stok * list sent * list sent)%type.
 
-(* get by name: the listed property whose name matches (the matching rule is property_match's, stated and
-   proved in Properties.v); x / y of a text *)
+(* ---- property_match: index of the entry selected, None = refused ---- *)
+Definition spec_match (m : bytes) (mlen : Z) (names : list bytes) : option nat :=
+  let hit (n : bytes) :=
+    if mlen <? 0 then beq (lowers n) (lowers m)
+    else beq (lowers (firstn (Z.to_nat mlen) n)) (lowers (firstn (Z.to_nat mlen) m)) in
+  let idx := filter (fun i => hit (nth i names [])) (seq 0 (List.length names)) in
+  match idx with
+  | [] => None
+  | i :: rest =>
+    if mlen <? 0 then Some i
+    else if (Z.to_nat mlen <=? List.length (nth i names []))%nat then (match rest with [] => Some i | _ => None end)
+    else Some i
+  end.
+
+(* get by name: the listed property selected by the matching rule (spec_match; the rule is stated and proved
+   about property_match in Properties.v); x / y of a text *)
 Definition sget (k : kind) (o : aobj) (name : bytes) : stok :=
   let names := map fst o in
   let mlen := match k with KAxis | KWorld => 3 | KGraph => 2 | _ => -1 end in
@@ -330,15 +353,13 @@ Definition sget (k : kind) (o : aobj) (name : bytes) : stok :=
     | _ => TR
     end
   | _, _ =>
-    let cands := filter (fun n => if mlen <? 0 then beq (lowers n) (lowers name)
-                                  else beq (lowers (firstn (Z.to_nat mlen) n)) (lowers (firstn (Z.to_nat mlen) name))
-                                       && (Z.to_nat mlen <=? List.length name)%nat) names in
-    match cands with
-    | [n] => match aget o n with
-             | Some v => TG (mksent n v (negb (pval_eqb v (ok_default k n))))
-             | None => TR
-             end
-    | _ => TR
+    match spec_match name mlen names with
+    | Some i => let n := nth i names [] in
+                match aget o n with
+                | Some v => TG (mksent n v (negb (pval_eqb v (ok_default k n))))
+                | None => TR
+                end
+    | None => TR
     end
   end.
 
@@ -370,17 +391,3 @@ Fixpoint srun (k : kind) (st : aobj * aobj) (ops : list op) : list sout :=
 Definition kind_no (n : N) : kind :=
   match n with 0%N => KAxis | 1%N => KLine | 2%N => KText | 3%N => KGraph | _ => KWorld end.
 
-(* ---- property_match: index of the entry selected, None = refused ---- *)
-Definition spec_match (m : bytes) (mlen : Z) (names : list bytes) : option nat :=
-  let hit (n : bytes) :=
-    if mlen <? 0 then beq (lowers n) (lowers m)
-    else beq (lowers (firstn (Z.to_nat mlen) n)) (lowers (firstn (Z.to_nat mlen) m))
-         && ((Z.to_nat mlen <=? List.length m)%nat || (List.length m =? List.length n)%nat) in
-  let idx := filter (fun i => hit (nth i names [])) (seq 0 (List.length names)) in
-  match idx with
-  | [] => None
-  | i :: rest =>
-    if mlen <? 0 then Some i
-    else if (Z.to_nat mlen <=? List.length (nth i names []))%nat then (match rest with [] => Some i | _ => None end)
-    else Some i
-  end.
